@@ -38,6 +38,40 @@ func countInstrs(fn *ssa.Function) int {
 	return n
 }
 
+// boundedEligible: a function whose loops are terminating computation loops (each has a `decreases` clause or walks a
+// range) and carry nothing per iteration (no body-ensures): when its loop contracts no longer fit the code, the
+// function's own pre/postconditions can still be checked by unrolling, up to a bound.
+func (fc *FuncContract) boundedEligible() bool {
+	if fc == nil || len(fc.Loops) == 0 || fc.Trusted || fc.Lemma {
+		return false
+	}
+	for _, lc := range fc.Loops {
+		if len(lc.BodyEnsures) > 0 {
+			return false
+		}
+		rng := false
+		for _, b := range lc.Binds {
+			if b.SSAName == "rangeindex" {
+				rng = true
+			}
+		}
+		if lc.Decreases == nil && !rng {
+			return false
+		}
+	}
+	return true
+}
+
+// verifyFuncBounded: the same function against the same contract with its loop contracts set aside: loops are
+// unrolled, executions with more than k symbolic iterations of a loop are left out.  A bounded check, never a proof.
+func (e *Engine) verifyFuncBounded(fn *ssa.Function, fc *FuncContract, k int) *FuncReport {
+	fc2 := *fc
+	fc2.Loops = map[int]*LoopContract{}
+	e.boundK = k
+	defer func() { e.boundK = 0 }()
+	return e.verifyFunc(fn, &fc2)
+}
+
 // obligationBudget caps the obligation instances generated for one function (the unchanged tree stays far below).
 const obligationBudget = 80000
 
@@ -307,6 +341,47 @@ func (s *State) frameObligations(fc *FuncContract, args []Value) {
 	}
 }
 
+// loopFrameObligations: at the back edge of a cut loop, every object that existed at the header and whose contents
+// differ from the header snapshot must be covered by a `loop k modifies` region.
+func (s *State) loopFrameObligations(lrt *loopRT) {
+	snap := lrt.headSnap
+	if snap == nil {
+		return
+	}
+	logOK := false
+	for _, r := range lrt.regs {
+		if r.Ghost == "log" {
+			logOK = true
+		}
+	}
+	_ = logOK // the events of an iteration are dropped with the iteration (cut loop): nothing to frame
+	saved := s.framePrefix
+	s.framePrefix = fmt.Sprintf("loop%d:", lrt.ord)
+	defer func() { s.framePrefix = saved }()
+	for id, cur := range s.heap {
+		o := s.objByID(id)
+		if o == nil || o.Ghost == "peekview" || o.Ghost == "streamview" || o.Ghost == "rvcell" {
+			continue
+		}
+		old, ok := snap.heap[id]
+		if !ok {
+			if o.Fresh {
+				continue // allocated by this iteration
+			}
+			old = o.Init // a pre-state object first touched in the body
+		}
+		if old == cur {
+			continue
+		}
+		if o.Fresh && lrt.lc.ModifiesFresh {
+			if _, isArr := cur.(*ArrayV); isArr {
+				continue
+			}
+		}
+		s.frameDiff(o, nil, old, cur, lrt.regs)
+	}
+}
+
 func (s *State) objByID(id int) *Obj {
 	return s.objIndex[id]
 }
@@ -363,7 +438,7 @@ func (s *State) frameDiff(o *Obj, path []Sel, old, cur Value, regs []*Region) {
 	if pathCovered(regs, o, path) {
 		return
 	}
-	name := "frame:" + pathString(o, path)
+	name := s.framePrefix + "frame:" + pathString(o, path)
 	switch c := cur.(type) {
 	case *Term:
 		s.oblige("frame", name, Eq(asTerm(old), c))
